@@ -240,3 +240,8 @@ CHECKS['C11']['technique'] = 'Verus proof of the real List push / pop / insert /
 _patch('C11', 'level_text', 'Bounded: real List::pop (quick), remove and insert (thorough) agree with the sequence model for lists up to 3 elements and every index 0..4, receiver unchanged on OutOfBounds.',
        'Unbounded (Verus, listops unit): the real List::pop / remove / insert / push agree with Seq::drop_last / remove / insert / push for every list, index and capacity (growth included); an empty pop is None, an index outside the list is OutOfBounds, and in both cases nothing changes. Bounded (Kani, raw representation): pop (quick), remove and insert (thorough) for lists up to 3 elements.')
 _patch('C11', 'level_note', 'category other because most obligations are bounded.', 'The bounded harnesses exercise the raw primitives the Verus unit stubs.')
+
+_patch('C05', 'level_text', 'Unbounded proof (Verus) on the extracted real functions:',
+       'Unbounded proof (Verus) on the extracted real functions: the interpreter ROOT SET (impl TraceRoot for Vm) reaches every GC-typed field of the Vm struct — contract generated from the struct; this obligation failed on the pinned tree for `inline_cache` (D21: stale inline-cache hit after a collection, found and fixed) —;')
+_patch('C05', 'level_note', 'NOT decided: root sets of Vm/Compiler/Fiber stack slices,', 'NOT decided: the root set of a running compilation (Compiler), Fiber stack slices beyond Fiber::trace,')
+_patch('C13', 'level_note', 'and A-classid (no class address reuse while cached: the GC part of the property is NOT decided).', 'and A-classid (no class address reuse while cached): true since the caches are GC roots (fix ae3a806, D21; the obligation that the root set reaches the caches is checked under C05).')
